@@ -136,7 +136,7 @@ def run(ctx) -> int:
     L = 8 if ctx.thorough else 7
     sweep(ctx, L)
     ctx.exhaustive.append(f"all layouts of length <= {L} x all (a,b) in [-len-2, len+2] u {{None}}")
-    randoms(ctx, 60000 if ctx.thorough else 8000)
+    randoms(ctx, 60000 if ctx.thorough else 20000)
     return common.decide(ctx, proof, RULE, search=search,
                          assumptions=["'a copy is independent' is a statement about Python aliasing: a pure model makes it true by construction, so that clause rests on the monitor of this run alone"])
 
